@@ -1,20 +1,47 @@
 """C04 configuration for bin/check."""
 
-CFG = {'assumptions': ['containers are not modelled here (C14)'],
+CFG = {'assumptions': ['containers are not modelled here (C14): container canonicity / hash-consing and the children of '
+                 'container primitive nodes in serialize are outside the Egg model',
+                 'serialize model abstracts the id strings (class "sort-rep", node "function-off-name" / '
+                 '"primitive-class" / "dummy-class") into constructors; let-bindings (internal_let functions, the '
+                 '"let" class data), costs and root_eclasses are not modelled',
+                 'relations are constructors of a hidden eq-sort in the engine (their nodes sit in eq-classes of that '
+                 'sort); the Egg session model keeps relation outputs as VInt 0, so the serialize model is tied on the '
+                 'REAL dump (h_serialize), not through the session model'],
  'corr_is_violation': True,
- 'harness': [{'bin': 'h_egg', 'extra': ['--prop', 'C04'], 'name': 'h_egg', 'prefix': 'cases_egg'}],
- 'link_only': "the same invariant evaluated on the REAL engine's dump after every command including failed "
-              'ones (rule panic, :no-merge conflict, failing primitive) via hook H0 (canonical id accessor); '
-              'the serialised e-graph (node count per function, number of e-classes) compared with the read API after every command',
- 'model_targets': ['Egg/Rules.vo'],
+ 'harness': [{'bin': 'h_egg', 'extra': ['--prop', 'C04'], 'name': 'h_egg', 'prefix': 'cases_egg'},
+             {'bin': 'h_serialize', 'extra': [], 'name': 'h_serialize', 'prefix': 'cases_ser'}],
+ 'link_only': "the same invariant evaluated on the REAL engine's dump after every command including failed ones (rule "
+              'panic, :no-merge conflict, failing primitive) via hook H0 (canonical id accessor); h_serialize: after '
+              'every command of generated sessions (all generator biases, failing commands included) the real '
+              'EGraph::serialize output (default config, and random max_functions / max_calls_per_function for a third '
+              'of the states) is compared by the kernel with the Gallina model run on the real read-API dump + H0 '
+              'canonical map (whole node map in IndexMap order incl. rotation-chosen child ids and dummy nodes, class '
+              'data, truncated / discarded lists), plus the predicate twin on the implementation (nodes = rows, class '
+              '= canonical class of output, children exist and sit in the canonical class of the argument, subsumed '
+              'flags, one class <-> one output value, class data present); NOT checked anywhere: which commands of '
+              'run_command flush/rebuild before returning is only observed through the twin (no Tier-A inventory of '
+              'the command glue yet); container values inside serialize',
+ 'model_targets': ['Egg/Rules.vo', 'Egg/Serialize.vo'],
  'proof_targets': ['Props/C04.vo'],
- 'theorem_backed': 'c04_inv_reachable: after every command of every history the model state is canonical '
-                   '(all stored ids are union-find roots), functional (keys distinct), has no two congruent '
-                   'rows; eval is evaluation modulo the union-find; c04_x_inv_reachable: for EVERY program of the rule interpreter over ANY signature (lattice functions, relations, :no-merge, subsume, delete, panic, ungrounded actions) every state visited - error point included - is canonical and functional; c04_x_no_model_error (rebuild fuel suffices on mixed signatures)',
+ 'theorem_backed': 'c04_inv_reachable: after every command of every history the model state is canonical (all stored '
+                   'ids are union-find roots), functional (keys distinct), has no two congruent rows; eval is '
+                   'evaluation modulo the union-find; c04_x_inv_reachable: for EVERY program of the rule interpreter '
+                   'over ANY signature (lattice functions, relations, :no-merge, subsume, delete, panic, ungrounded '
+                   'actions) every state visited - error point included - is canonical and functional; '
+                   'c04_x_no_model_error (rebuild fuel suffices on mixed signatures); c04_serialize_agrees: at every '
+                   'visited state (error points included) the model of EGraph::serialize (default config) applied to '
+                   'the state has exactly the live rows as function nodes, each with the op / subsumed flag of its row '
+                   'and the e-class of its output, every child is a node present in the graph whose e-class is the '
+                   'canonical class of the argument, canonicalisation is the identity on stored ids (class ids = '
+                   'stored ids), and two nodes share an e-class iff plain key lookups (the read API) return the same '
+                   'value; c04_serialize_nodes_are_rows / c04_serialize_rows_are_nodes / c04_serialize_leaf_class hold '
+                   'for the serialisation of ANY dump (no invariant needed), dummy nodes and node rotation included',
  'tier_a': ['UFSeq', 'MergeArms', 'BridgeFns'],
- 'trusted': ['translator /verif/translator: gen/UFSeq.v (union-find), gen/MergeArms.v (UnionId=min, Old, '
-             'New), gen/BridgeFns.v (combine_subsumed) are regenerated from the source on every run and used '
-             'by Egg/Model.v',
-             'hand-written model coq/Egg/Model.v + Egg/Rules.v (naive matching, term-level commands) tied to '
-             'the engine by the correspondence check h_egg (observations after every command: class vector '
-             'of probe terms up to depth 3, table sizes, subsumed counts, int-valued probes)']}
+ 'trusted': ['translator /verif/translator: gen/UFSeq.v (union-find), gen/MergeArms.v (UnionId=min, Old, New), '
+             'gen/BridgeFns.v (combine_subsumed) are regenerated from the source on every run and used by Egg/Model.v',
+             'hand-written model coq/Egg/Model.v + Egg/Rules.v (naive matching, term-level commands) tied to the '
+             'engine by the correspondence check h_egg (observations after every command: class vector of probe terms '
+             'up to depth 3, table sizes, subsumed counts, int-valued probes)',
+             'hand-written model coq/Egg/Serialize.v of src/serialize.rs:125-398 tied to the engine by h_serialize '
+             '(kernel-evaluated cases_ser_*.v on real dumps)']}
